@@ -38,7 +38,8 @@ func (e *Engine) newUnit(fn *ssa.Function) *Unit {
 				if mt, ok := stt.Field(i).Type().Underlying().(*types.Map); ok && stt.Field(i).Name() == parts[2] {
 					key := u.sorts.typeKey(mt.Key()) + "=>" + u.sorts.typeKey(mt.Elem())
 					u.distinctHeaps["MV:"+key] = u.sorts.sortOf(mt.Key())
-					if pt, ok := mt.Elem().Underlying().(*types.Pointer); ok && strings.Contains(inv, "frozen") {
+					// (the frozen rule is an obligation of the registry's own package: other packages never see the registry)
+					if pt, ok := mt.Elem().Underlying().(*types.Pointer); ok && strings.Contains(inv, "frozen") && fn.Pkg != nil && fn.Pkg.Pkg.Name() == parts[0] {
 						u.frozenHeaps["H:"+u.sorts.typeKey(pt.Elem())] = mt
 					}
 				}
@@ -343,6 +344,53 @@ func describeUnit(u *Unit) string {
 // localNamed finds the value of the source-level local variable `name` as of instruction `at`:
 // the latest DebugRef of that variable which dominates `at` (go/ssa GlobalDebug mode).
 func (fr *frame) localNamed(name string, at ssa.Instruction, st *State) *Val {
+	// `local.f.g`: a field path of a local - the way to reach into values of anonymous (unnameable) struct types, such
+	// as the alias structs of the (Un)MarshalXML methods
+	if i := strings.Index(name, "."); i > 0 && !strings.HasPrefix(name, "reached:") {
+		base, path := name[:i], strings.Split(name[i+1:], ".")
+		v, t := fr.localNamedT(base, at, st)
+		if v == nil {
+			return nil
+		}
+		for _, f := range path {
+			v, t = fr.projectField(v, t, f, st)
+			if v == nil {
+				return nil
+			}
+		}
+		return v
+	}
+	v, _ := fr.localNamedT(name, at, st)
+	return v
+}
+
+// projectField selects field f of a struct value, or of the struct a pointer value points to.
+func (fr *frame) projectField(v *Val, t types.Type, f string, st *State) (*Val, types.Type) {
+	u := fr.u
+	if pt, ok := t.Underlying().(*types.Pointer); ok {
+		stt, ok := pt.Elem().Underlying().(*types.Struct)
+		if !ok {
+			return nil, nil
+		}
+		for i := 0; i < stt.NumFields(); i++ {
+			if stt.Field(i).Name() == f {
+				lv := fr.ptrLV(v, t).extendField(i, pt.Elem(), stt.Field(i).Type())
+				return &Val{t: u.read(st, lv)}, stt.Field(i).Type()
+			}
+		}
+		return nil, nil
+	}
+	if stt, ok := t.Underlying().(*types.Struct); ok {
+		for i := 0; i < stt.NumFields(); i++ {
+			if stt.Field(i).Name() == f {
+				return &Val{t: fmt.Sprintf("(%s %s)", u.sorts.fieldSel(t, i), fr.valTerm(v, st))}, stt.Field(i).Type()
+			}
+		}
+	}
+	return nil, nil
+}
+
+func (fr *frame) localNamedT(name string, at ssa.Instruction, st *State) (*Val, types.Type) {
 	// `name?`: the latest definition of a local that need not dominate the anchor (declared in a branch taken earlier);
 	// `reached:name`: whether that definition was executed on the path reaching the anchor (the reach literal of its block)
 	opt, wantReach := false, false
@@ -392,7 +440,7 @@ func (fr *frame) localNamed(name string, at ssa.Instruction, st *State) *Val {
 		}
 	}
 	if len(cands) == 0 {
-		return nil
+		return nil, nil
 	}
 	best := cands[0]
 	if opt {
@@ -405,12 +453,12 @@ func (fr *frame) localNamed(name string, at ssa.Instruction, st *State) *Val {
 		}
 		if wantReach {
 			if best.b == atBlock || best.b.Dominates(atBlock) {
-				return &Val{t: "true"}
+				return &Val{t: "true"}, types.Typ[types.Bool]
 			}
 			if r, ok := fr.reach[best.b.Index]; ok && r != "" {
-				return &Val{t: r}
+				return &Val{t: r}, types.Typ[types.Bool]
 			}
-			return nil
+			return nil, nil
 		}
 	} else {
 		for _, c := range cands[1:] {
@@ -426,9 +474,9 @@ func (fr *frame) localNamed(name string, at ssa.Instruction, st *State) *Val {
 	v := fr.valOf(best.v)
 	if best.isAddr {
 		lv := fr.ptrLV(v, best.v.Type())
-		return &Val{t: fr.u.read(st, lv)}
+		return &Val{t: fr.u.read(st, lv)}, best.v.Type().Underlying().(*types.Pointer).Elem()
 	}
-	return v
+	return v, best.v.Type()
 }
 
 func (fr *frame) retsByPos() []retInfo {
